@@ -510,6 +510,8 @@ class SGen:
                 if target is None:
                     self.emit("SPub 0 (PVar 4000000)")          # unreachable at this public configuration: makes [flat] fail if reached
                     return None
+                if target in getattr(self, "procs", {}):
+                    return self.proc_call(target, args, n)
                 for t_ in [self.tu] + list(getattr(self.tu, "others", [])):
                     if target in t_.funcs:
                         if not hasattr(t_, "others"): t_.others = []
@@ -526,14 +528,7 @@ class SGen:
             if d[0] is None: self.bad(n, "memset with a null pointer")
             self.emit("SFill %d (%s) (%s) %d" % (d[0], d[1], k, v & 255)); return None
         if name in getattr(self, "procs", {}):
-            # a callee kept as a PROCEDURE CALL (coq/WholeProc.v): f(out, in, ks) with a block-sized output and input and the
-            # whole key-schedule object as its second data argument; its meaning is supplied by the call interpretation
-            fno, bs, kn = self.procs[name]
-            o = self.ptr(args[0]); i = self.ptr(args[1]); kk = self.ptr(args[2])
-            if o[0] is None or i[0] is None or kk[0] is None: self.bad(n, "procedure call with a null pointer")
-            self.emit("SDStore %d (%s) %d (DCall %d (DConcat [DLoad %d (%s) %d; DLoad %d (%s) %d]))"
-                      % (o[0], o[1], bs, fno, i[0], i[1], bs, kk[0], kk[1], kn))
-            return None
+            return self.proc_call(name, args, n)
         if name in self.opaque:
             e, w, s = self.data(args[0])
             return ("data", "DCall %d (%s)" % (self.opaque[name], e), w, s)
@@ -545,6 +540,15 @@ class SGen:
                     return self.inline(other.funcs[name], args, n, body_tu=other)
             raise Unsupported("call to external function %s at %s" % (name, loc_of(n)))
         return self.inline(f, args, n)
+    def proc_call(self, name, args, n):
+        # a callee kept as a PROCEDURE CALL (coq/WholeProc.v): f(out, in, ks) with an output and an input of bs bytes and the
+        # whole key-schedule object as its second data argument; its meaning is supplied by the call interpretation
+        fno, bs, kn = self.procs[name]
+        o = self.ptr(args[0]); i = self.ptr(args[1]); kk = self.ptr(args[2])
+        if o[0] is None or i[0] is None or kk[0] is None: self.bad(n, "procedure call with a null pointer")
+        self.emit("SDStore %d (%s) %d (DCall %d (DConcat [DLoad %d (%s) %d; DLoad %d (%s) %d]))"
+                  % (o[0], o[1], bs, fno, i[0], i[1], bs, kk[0], kk[1], kn))
+        return None
     def pubsize(self, n):
         try: return self.pub(n)
         except Secret as e: raise Unsupported("secret-dependent size: %s" % e)
